@@ -48,6 +48,9 @@ pub fn run(cfg: &Cfg) -> i32 {
     }
     let mut sampled = 0;
     for (si, c) in stories.iter().enumerate() {
+        if !cfg.mine(si as u64) {
+            continue;
+        }
         let has_probe = c.info.knots.iter().any(|k| k == "kprobe");
         for h in 0..cfg.pick(4, 8) as usize {
             let mut rng = Rng::derive(cfg.seed, "C17-hist", (si * 100 + h) as u64);
@@ -224,7 +227,7 @@ pub fn run(cfg: &Cfg) -> i32 {
             match run {
                 Err(e) => {
                     let msg = e.downcast_ref::<String>().cloned().or_else(|| e.downcast_ref::<&str>().map(|s| s.to_string())).unwrap_or_default();
-                    rep.violation("reset/panic", json!({"program": c.name, "source": c.src, "panic": msg}));
+                    rep.panic_caught("reset", json!({"program": c.name, "source": c.src, "panic": msg}));
                 }
                 Ok(Err(_)) => rep.inconclusive("story-did-not-load"),
                 Ok(Ok(())) => {}
